@@ -56,7 +56,9 @@ def history_strategy(tier):
             strategies = [{"batch": b, "runtime": base + i * draw(st.integers(1, 3)), "gpu": draw(st.integers(1, 2))} for i, b in enumerate(sizes)]
             if draw(st.booleans()):
                 strategies = list(draw(st.permutations(strategies)))  # a profile may list its strategies in any order
-            models.append({"name": f"m{m}", "strategies": strategies, "load_gpu": draw(st.integers(0, 1)), "preloaded": draw(st.booleans())})
+            models.append({"name": f"m{m}", "strategies": strategies, "load_gpu": draw(st.integers(0, 1)), "preloaded": draw(st.booleans()),
+                           # a model takes time to load: until then it is pending on the worker, not loaded
+                           "load_time": draw(st.sampled_from([0, 0, 0, 2, 5, 9]))})
         op = st.one_of(
             st.tuples(st.just("submit"), st.integers(0, 2), st.integers(1, 5), st.integers(-1, 14)),
             st.tuples(st.just("submit"), st.integers(0, 2), st.integers(1, 5), st.integers(2, 10)),
@@ -92,7 +94,7 @@ def execute(case):
         ex = ExecutionStrategies([
             ExecutionStrategy(resources=Resources({Resource(name="GPU", _id="any"): s["gpu"]}), batch_size=s["batch"], runtime=T(s["runtime"])) for s in m["strategies"]
         ])
-        ld = ExecutionStrategies([ExecutionStrategy(resources=Resources({Resource(name="RAM", _id="any"): 1}), batch_size=1, runtime=T(0))])
+        ld = ExecutionStrategies([ExecutionStrategy(resources=Resources({Resource(name="RAM", _id="any"): 1}), batch_size=1, runtime=T(m.get("load_time", 0)))])
         p = WorkProfile(name=m["name"], execution_strategies=ex, loading_strategies=ld)
         profiles.append(p)
         jobs.append(Job(name=m["name"], profile=p))
@@ -117,6 +119,7 @@ def execute(case):
     expiries = 0
     placed_total = 0
     profile_ops = 0
+    pending_invocations = 0
 
     def bad(clause, detail):
         V.append(Violation(clause, f"{detail}; case={case}", f"clockwork.{clause}.{case['goal']}"))
@@ -179,6 +182,8 @@ def execute(case):
                                      sorted(p_.name for p_ in w.get_available_profiles()), sorted(p_.name for p_ in w.get_pending_profiles())) for w in workers}
 
                 live_before = live()
+                if any(w.get_pending_profiles() for w in workers):
+                    pending_invocations += 1
                 placements = policy.schedule(T(now), wl, wps)
                 if {w.id: free_gpu(w) for w in workers} != free:
                     bad("side_effect", f"schedule() changed the live workers: free GPUs {free} -> { {w.id: free_gpu(w) for w in workers} }")
@@ -297,6 +302,8 @@ def execute(case):
     res.nontrivial = invocations >= 2 and (big_batch or expiries > 0)
     res.counters = {"invocations": invocations, "requests": len(requests), "placed": placed_total, "cancelled": expiries}
     res.classes = [f"goal={case['goal']}", "big_batch" if big_batch else "no_big_batch", "expiry" if expiries else "no_expiry"]
+    if pending_invocations:
+        res.classes.append("invocation_while_a_model_is_loading")
     if run_load:
         res.classes.append("run_load" + ("_with_profile_decisions" if profile_ops else ""))
     seen, outv = set(), []
